@@ -70,6 +70,7 @@ EXPECT = [
     ('do not let our own keepalives postpone the close', ['C14']),
     ('disconnect every contact in Agent.stop()', ['C09']),
     ('keep the type code of an encrypted block whose type was implied', ['C16']),
+    ('keep the CRC type of the primary block on a reassembled bundle', ['C06']),
 ]
 
 
